@@ -147,17 +147,17 @@ CLAIMED = {
               "with mustAcceptB (calls the statement lists as legal must return). " + GRAPH_TIE),
         design='5 (C16), 12.5', technique='Lean 4 proof (closed-form effect = model step, incl. merge-sort stability and owner propagation) + differential correspondence with an effect monitor'),
     'C19': dict(
-        text=("PARTIAL for the Mermaid network (known finding KF-R1), proved for the rest. 'Text cannot add, drop or alter entries' is stated as: a "
-              "plain lexical reader of the emitted source returns exactly the entries of the WBS. Theorems for all task lists and all single-line "
-              "names (quotes, braces, angle brackets, '$', ':', commas, look-alike ids): C19_gantt_line, C19_gantt (one task line per task in WBS "
-              "order, each reading back as id, start, end, milestone flag), C19_gantt_sections (with sections: a permutation grouped by section), "
-              "C19_network_partial (one edge per dependency, one Start edge per task without predecessors - for names without braces), "
-              "C19_network_full_fails (kernel-checked counterexample: the name `a}} --> 7{{x` adds an edge; replayed on the implementation on "
-              "every run), C19_data / C19_links / C19_progress (DHTMLX: one entry per task with id, name, dates, parent id or 0; links numbered "
-              "1..k, one per dependency; progress within 0..1). JSON well-formedness and HTML escaping are json.dumps / html.escape of the "
-              "standard library: not modelled, judged on the implementation's output by json.loads / html.unescape in the stream. The model's "
-              "text must equal the implementation's character for character (random scheduled WBSs, sections, styles, milestones, hostile names)."),
-        design='7 (C19), 12.5', technique='Lean 4 proof (printer/reader round trip per rendering) + differential correspondence on the exact text; known finding for brace injection in Mermaid network labels'),
+        text=("'Text cannot add, drop or alter entries' is stated as: a plain lexical reader of the emitted source returns exactly the entries of "
+              "the WBS. Theorems for all task lists and all single-line names (quotes, braces, angle brackets, '$', ':', commas, look-alike ids): "
+              "C19_gantt_line, C19_gantt (one task line per task in WBS order, each reading back as id, start, end, milestone flag), "
+              "C19_gantt_sections (with sections: a permutation grouped by section), C19_network (one edge per dependency, one Start edge per "
+              "task without predecessors, for every single-line name: braces are written as Mermaid entity codes since the repair of the former "
+              "finding KF-R1, whose witness is kept in the corpus and in C19_network_example), C19_data / C19_links / C19_progress (DHTMLX: one "
+              "entry per task with id, name, dates, parent id or 0; links numbered 1..k, one per dependency; progress within 0..1). JSON "
+              "well-formedness and HTML escaping are json.dumps / html.escape of the standard library: not modelled, judged on the "
+              "implementation's output by json.loads / html.unescape in the stream. The model's text must equal the implementation's character "
+              "for character (random scheduled WBSs, sections, styles, milestones, hostile names)."),
+        design='7 (C19), 12.5', technique='Lean 4 proof (printer/reader round trip per rendering) + differential correspondence on the exact text'),
     'C20': dict(
         text=("Theorems about the model of TextTable and _Repr for all tables and sheets: C20_wide (every column is at least as wide as its "
               "longest cell), C20_row_width / C20_aligned (ignoring colour codes every line has the same width, the sum of the column widths "
